@@ -27,7 +27,7 @@ def generate(ctx):
              "reward": rng.choice(["scalar+", "scalar-", "tensor", "tensor"]), "scale": rng.choice([1.0, 0.5]),
              "p": rng.choice([0.2, 0.4, 0.7]), "seed": rng.randrange(1 << 30), "delay": rng.choice([1, 2, 3]),
              "delay_values": rng.choice(["ongrid", "offgrid", "zero"]), "reassign_delays": rng.random() < 0.4,
-             "per_cell": rng.random() < 0.4, "clear_at": rng.choice([None, None, 2, 3, 5]), "keepshape": rng.random() < 0.6,
+             "per_cell": rng.random() < 0.4, "inplace": rng.random() < 0.5, "clear_at": rng.choice([None, None, 2, 3, 5]), "keepshape": rng.random() < 0.6,
              "tensor_kwargs": rng.choice([[], [], ["post_learning_rate"], ["post_time_constant", "pre_learning_rate"],
                                           ["post_learning_rate", "post_time_constant"], ["pre_time_constant"]])}
         if rng.random() < 0.4:
@@ -129,7 +129,8 @@ def _continuous(desc, hyper, a, b):
 def _formula(ctx, desc):
     name = desc["trainer"]
     a, b = c08.SIGNS[desc["signs"]]
-    hyper = {"lr_a": a, "lr_b": b, "delayed": desc.get("delayed", False), "tensor_kwargs": desc.get("tensor_kwargs", [])}
+    hyper = {"lr_a": a, "lr_b": b, "delayed": desc.get("delayed", False), "tensor_kwargs": desc.get("tensor_kwargs", []),
+             "inplace": bool(desc.get("inplace"))}
     _continuous(desc, hyper, a, b)
     red = desc["reduction"]
     h = tr.Harness(name, desc["conn"], dt=desc["dt"], B=desc["B"], delay_steps=desc["delay"], seed=desc["seed"],
